@@ -242,7 +242,7 @@ func (r *Route) weighTargets() {
 			}
 		}
 	}
-	plain := !math.IsInf(sumFixed, 0) && !math.IsInf(1/sumFixed, 0)
+	plain := !math.IsInf(sumFixed, 0)
 
 	// if there are no targets with fixed weight then each target simply gets
 	// an equal amount of traffic
@@ -268,7 +268,7 @@ func (r *Route) weighTargets() {
 	for _, t := range r.Targets {
 		if t.FixedWeight > 0 {
 			if normalize && plain {
-				t.Weight = t.FixedWeight * (1 / sumFixed)
+				t.Weight = t.FixedWeight / sumFixed
 			} else if normalize {
 				t.Weight = t.FixedWeight / maxFixed / relSum
 			} else {
